@@ -45,7 +45,14 @@ def load_config(pid):
     layers of the same property: bridge lemmas, schedules, reads, …)."""
     import glob
     cfg = json.load(open(os.path.join(VERIF, "checks", pid + ".json")))
+    try:
+        enabled = set(open(os.path.join(VERIF, "fragments.txt")).read().split())
+    except FileNotFoundError:
+        enabled = set()
+    extra = set(os.environ.get("VERIF_FRAGMENTS", "").split())  # e.g. VERIF_FRAGMENTS="C02.reads" to try one
     for f in sorted(glob.glob(os.path.join(VERIF, "checks", pid + ".*.json"))):
+        if os.path.basename(f)[:-5] not in (enabled | extra):
+            continue  # a layer is merged only once it has been verified OK on the unchanged tree
         frag = json.load(open(f))
         for k in ("props_modules", "translators", "workloads", "trusted_base", "assumptions"):
             for x in frag.get(k, []):
